@@ -534,7 +534,7 @@ def run(ck, fb, tier):
             rule_s3(ck, prog)
             got = K.need(ck, prog, "C11-S2", "SCPI_RegSet")
             if got:
-                model = RegSetModel(got[0])
+                model = RegSetModel(got[0], prog)
                 if model.problems:
                     for pr in model.problems:
                         ck.anchor_lost("C11-S2", pr)
